@@ -51,12 +51,30 @@ fn facets(ev: &Value, ex: &Value) -> Vec<(String, Value, Value, bool)> {
     let exp_keys: Vec<Value> = exp_rows.iter().map(|r| r[0].clone()).collect();
     let act_keys: Vec<Value> = act_rows.iter().map(|r| r[0].clone()).collect();
     let same_keyset = sorted(&json!(exp_keys)) == sorted(&json!(act_keys));
+    // Which of the two equal key objects survives a replacing insert is stated
+    // by no property: the passed key is named like the stored one.
+    let replaced: Option<Value> = if op == "insert" && ex["ret"]["tag"] == "OkSome" {
+        Some(ev["a"]["k"].clone())
+    } else { None };
+    let norm = |v: &Value| -> Value {
+        match &replaced {
+            Some(k) => {
+                let s = v.to_string().replace("[\"AK\",0]", &format!("[\"K\",{}]", k));
+                serde_json::from_str(&s).unwrap_or(v.clone())
+            },
+            None => v.clone()
+        }
+    };
     let same_keys = exp_keys == act_keys;
     eq("keys", json!(exp_keys), json!(act_keys));
 
+    let row3 = |r: &Value| -> Value {
+        if Some(&r[0]) == replaced.as_ref() { json!([r[0], "-", r[2]]) } else { json!([r[0], r[1], r[2]]) }
+    };
+
     if same_keys {
-        eq("sizes", json!(exp_rows.iter().map(|r| json!([r[0], r[1], r[2]])).collect::<Vec<_>>()),
-           json!(act_rows.iter().map(|r| json!([r[0], r[1], r[2]])).collect::<Vec<_>>()));
+        eq("sizes", json!(exp_rows.iter().map(row3).collect::<Vec<_>>()),
+           json!(act_rows.iter().map(row3).collect::<Vec<_>>()));
     }
 
     if t["alive"] == true && st["alive"] == true {
@@ -64,7 +82,7 @@ fn facets(ev: &Value, ex: &Value) -> Vec<(String, Value, Value, bool)> {
         let recs: Vec<Value> = hook["fwd"].as_array()
             .map(|v| v.iter().map(|n| n[1].clone()).collect()).unwrap_or_default();
         let same_content = same_keys && exp_rows.iter().zip(act_rows.iter())
-            .all(|(e, a)| e[1] == a[1] && e[2] == a[2]);
+            .all(|(e, a)| row3(e) == row3(a));
 
         // (a) against TLC
         if same_content {
@@ -82,7 +100,7 @@ fn facets(ev: &Value, ex: &Value) -> Vec<(String, Value, Value, bool)> {
                 if k.as_i64() == Some(fresh) { json!([["AK", 0], ["AV", 0]]) }
                 else { json!([["K", k], ["V", k]]) }
             }).collect();
-            eq("marks", json!(marks), st["marks"].clone());
+            eq("marks", norm(&json!(marks)), norm(&st["marks"]));
         }
 
         // (b) the real state against itself
@@ -119,7 +137,7 @@ fn facets(ev: &Value, ex: &Value) -> Vec<(String, Value, Value, bool)> {
 
     if !expect_panic && same_keyset {
         eq("ret", ex["ret"].clone(), ev["ret"].clone());
-        eq("dropped", sorted(&ex["dropped"]), sorted(&ev["dropped"]));
+        eq("dropped", sorted(&norm(&ex["dropped"])), sorted(&norm(&ev["dropped"])));
         eq("handed", sorted(&ex["handed"]), sorted(&ev["handed"]));
     }
 
